@@ -49,6 +49,10 @@ type _LexerStateMachine struct {
 	state int
 	mode  []uint32
 	modeStack _Stack[[]uint32]
+
+	// accum is true while text matched by fragments without @emit or @discard
+	// is waiting for the rule that will emit or discard it.
+	accum bool
 }
 
 func (l *_LexerStateMachine) PushRune(r rune) int {
@@ -123,17 +127,22 @@ func (l *_LexerStateMachine) PushRune(r rune) int {
 		case 3: // Accept
 			l.token = int(mode[i+1])
 			l.state = 0
+			l.accum = false
 			return _lexerAccept
 		case 4: // Discard
 			l.state = 0
+			l.accum = false
 			return _lexerDiscard
 		case 5: // Accum
 			l.state = 0
+			l.accum = true
 			return _lexerTryAgain
 		}
 	}
 
-	if l.state == 0 && r == -1 {
+	// The input may only end at a token boundary. Accumulated text that no rule
+	// has emitted or discarded is an unfinished token, not a clean end.
+	if l.state == 0 && r == -1 && !l.accum {
 		return _lexerEOF
 	}
 
@@ -142,6 +151,7 @@ func (l *_LexerStateMachine) PushRune(r rune) int {
 func (l *_LexerStateMachine) Reset() {
 	l.mode = nil
 	l.state = 0
+	l.accum = false
 }
 
 func (l *_LexerStateMachine) Token() int {
